@@ -1,6 +1,7 @@
 package main
 
 import (
+	"os"
 	"fmt"
 	"math/rand"
 	"reflect"
@@ -26,7 +27,8 @@ import (
 )
 
 var c02Lits = []string{"python", "--lr=", " ", "$HOME/x", "a<b&c>d", "{}", "$", "${", "}", "x.y", "é", "\\n", "50%", "${trialParameters", "trialParameters.lr}"}
-var c02Names = []string{"lr", "n", "opt", "name", "ns", "kind", "lbl"}
+// parameter names are free-form strings (the webhook only refuses empty names and braces)
+var c02Names = []string{"lr", "n", "opt", "name", "ns", "kind", "lbl", "learning-rate", "optimizer.momentum", "trial/name", "tier~label", "β1", "a+b"}
 var c02Vals = []string{"0.01", "adam", "3", "a-b_c", "1e-5", "", "x.y", "-0.5"}
 
 func c02Str(rng *rand.Rand, declared []string) string {
@@ -187,6 +189,17 @@ func init() {
 				src := tplStr // JSON is YAML too
 				if yamlSrc {
 					src = string(yb)
+					// a value substituted into YAML text can break the YAML (e.g. an empty value in front of `}`): such a
+					// source is not a template for these values; fall back to the JSON form of the same object
+					txt := src
+					for n, val := range sigma {
+						txt = strings.ReplaceAll(txt, "${trialParameters."+n+"}", val)
+					}
+					if _, perr := kutil.ConvertStringToUnstructured(txt); perr != nil {
+						yamlSrc = false
+						src = tplStr
+						tags = append(tags, "yaml-source-would-not-parse-after-substitution")
+					}
 				}
 				e.Spec.TrialTemplate.TrialSource = experimentsv1beta1.TrialSource{ConfigMap: &experimentsv1beta1.ConfigMapSource{ConfigMapName: "tpl", ConfigMapNamespace: "ns", TemplatePath: "t.yaml"}}
 				cmSrc = src
@@ -226,6 +239,9 @@ func init() {
 						cls = "illegalMeta"
 					}
 					impl = "err " + cls
+					if os.Getenv("KVH_DEBUG") != "" {
+						fmt.Fprintf(os.Stderr, "DEBUG err: %v\nsrc=%s\nsigma=%v\n", err, cmSrc, sigma)
+					}
 					return
 				}
 				want := c02Subst(runtime.DeepCopyJSON(obj), sigma).(map[string]interface{})
@@ -256,6 +272,9 @@ func init() {
 					if strings.Contains(ser, "${trialParameters."+p+"}") {
 						left = true
 					}
+				}
+				if left && os.Getenv("KVH_DEBUG") != "" {
+					fmt.Fprintf(os.Stderr, "DEBUG left: ser=%s\nsrc=%s\nsigma=%v declared=%v\n", ser, cmSrc, sigma, declared)
 				}
 				if fromCM {
 					impl = fmt.Sprintf("ok ## tree=%s named=%s left=%s", b01(tree), b01(named), b01(left))
